@@ -479,7 +479,7 @@ def scandat(repofiles):
         lines = fp.readlines()
         fp.close()
         if lines:
-            fn, startpos, endpos, sum = lines[-1].split()
+            fn, startpos, endpos, sum = lines[-1].rsplit(None, 3)
             startpos = int(startpos)
             endpos = int(endpos)
 
@@ -704,7 +704,7 @@ def do_recover(options):
             with open(datfile) as fp:
                 truth_dict = {}
                 for line in fp:
-                    fn, startpos, endpos, sum = line.split()
+                    fn, startpos, endpos, sum = line.rsplit(None, 3)
                     startpos = int(startpos)
                     endpos = int(endpos)
                     filename = os.path.join(options.repository,
@@ -770,7 +770,7 @@ def do_verify(options):
         if fn.endswith('.dat') and fn != datfile)
     with fileinput.input(datfiles) as fp:
         for line in fp:
-            fn, startpos, endpos, sum = line.split()
+            fn, startpos, endpos, sum = line.rsplit(None, 3)
             startpos = int(startpos)
             endpos = int(endpos)
             filename = os.path.join(options.repository,
